@@ -7,7 +7,9 @@ from analysis.fieldcov import fields_read, _places_read, fields_in_place
 from analysis.tables import const_strings_of_operand
 
 
-def chars_used(prog, fn, callee_names):
+def chars_used(prog, fn, callee_names, tr=None):
+    """Characters handed to the named calls in fn and its closures: char constants, and one-character string
+    constants (`join(".")`, `push_str(".")`)."""
     out = set()
     for g in prog.with_closures(fn):
         for bb, t in g.calls():
@@ -15,6 +17,30 @@ def chars_used(prog, fn, callee_names):
                 for a in t['args']:
                     if a['k'] == 'const' and 'char' in a:
                         out.add(a['char'])
+                    elif tr is not None:
+                        for sc in const_strings_of_operand(g, a, tr):
+                            if len(sc) == 1:
+                                out.add(sc)
+    return out
+
+
+def dot_emissions(prog, fn, tr):
+    """Blocks (in the closures of fn) where a literal "." is put in front of / between text: a "." string constant
+    passed to a call, or a format template that contains one."""
+    out = []
+    for c in prog.closures_of(fn):
+        for bb, t in c.calls():
+            hit = False
+            for a in t['args']:
+                if any(sc == '.' for sc in const_strings_of_operand(c, a, tr)):
+                    hit = True
+                if callee_short(t) == 'Arguments::new':
+                    from rules.c20 import producer
+                    pr = producer(c, a)
+                    if pr[0] == 'const' and '.' in (pr[1].get('bytes') or pr[1].get('str') or ''):
+                        hit = True
+            if hit and callee_short(t).rsplit('::', 1)[-1] not in ('join',):
+                out.append((c, bb))
     return out
 
 
@@ -153,20 +179,14 @@ def run(chk, prog):
     if chk.anchor(RB, 'Path::new_with_components_string', parser) and chk.anchor(RB, 'Path::get_components_string', gcs):
         # separator
         psep = chars_used(prog, parser, ('split', 'split_terminator', 'rsplit'))
-        rsep = chars_used(prog, gcs, ('push',))
+        rsep = chars_used(prog, gcs, ('push', 'push_str', 'join'), tr)
         chk.decide(RB, chk.key(RB, 'separator'), bool(psep) and psep == rsep,
                    'parser splits on %s, renderer joins with %s' % (sorted(psep), sorted(rsep)),
                    'path separator differs: parser splits on %s, renderer joins with %s' % (sorted(psep), sorted(rsep)),
                    parser.loc(0))
         # leading dot
         pdot = chars_used(prog, parser, ('strip_prefix', 'starts_with'))
-        rdot = set()
-        for c in prog.closures_of(gcs):
-            for bb, t in c.calls():
-                for a in t['args']:
-                    for sc in const_strings_of_operand(c, a, tr):
-                        if sc in ('.',):
-                            rdot.add(sc)
+        rdot = {'.'} if dot_emissions(prog, gcs, tr) else set()
         chk.decide(RB, chk.key(RB, 'relative-marker'), pdot == {'.'} and rdot == {'.'},
                    'both sides use "." as the relative marker',
                    'relative marker differs: parser tests %s, renderer emits %s' % (sorted(pdot), sorted(rdot)),
@@ -177,9 +197,10 @@ def run(chk, prog):
                 return 'rel' if desc == ('field', 'Path::is_relative') else None
             gf = GuardFlow(prog, c, atom, tracer=tr)
             gf.run()
-            for bb, t in c.calls():
-                if any('.' in const_strings_of_operand(c, a, tr) for a in t['args']) and \
-                        callee_short(t).rsplit('::', 1)[-1] in ('to_owned', 'to_string', 'push_str', 'from', 'add'):
+            for c2, bb in dot_emissions(prog, gcs, tr):
+                if c2 is not c:
+                    continue
+                if True:
                     vs = gf.valuations_at(bb, ['rel'])
                     chk.decide(RB, chk.key(RB, 'dot-emitted-iff-relative'),
                                bool(vs) and all(v['rel'] is True for v in vs),
